@@ -216,6 +216,7 @@ Verdict prop(Tape& t, Run& run) {
 		o.allowSkin = false; // skin applied below with its own parameters
 		o.mesh.maxVerts = 150;
 		o.mesh.maxTris = 400;
+		o.mesh.minTris = 4;
 		GenShape g = buildGenShape(c.nif, t, vi, "Body", o);
 		if (!g.shape || g.mesh.tris.empty()) {
 			run.exclude("shape without triangles (domain: skinned shapes with >= 1 triangle)");
